@@ -308,3 +308,73 @@ contract(
     trusted_reason="generator over range(iy1, iy2) x range(ix1, ix2) of idx_bounds (proved): BOUNDED native check against brute force",
     native_samples=_gs_samples,
 )
+
+
+# ---- tiles() / tiles_from_geopolygon(): data flow (the index bounds are idx_bounds' contract; predicates are shapely's) ------------------
+
+
+def _lemma_gs_tiles_flow(ix1, iy1, nx, ny, use_cache, polygon):
+    m = repo(GS)
+    G = m.GridSpec
+    ix2, iy2 = ix1 + nx, iy1 + ny
+    log = []
+
+    class TileBox:
+        def __init__(self, idx):
+            self.idx = idx
+            self.extent = ("extent-of", idx)
+
+    g = object.__new__(G)
+    object.__setattr__(g, "crs", "grid-crs")
+    saved = (G.__dict__["idx_bounds"], G.__dict__["tile_geobox"])
+    try:
+        G.idx_bounds = lambda self, bounds: (log.append(("idx_bounds", bounds)), (ix1, iy1, ix2, iy2))[1]
+        G.tile_geobox = lambda self, idx: (log.append(("tile_geobox", idx)), TileBox(idx))[1]
+        cache = {(ix1, iy1): TileBox((ix1, iy1))} if use_cache else None
+        pre_cached = None if cache is None else cache[(ix1, iy1)]
+        if polygon:
+
+            class Poly:
+                boundingbox = "bbox-of-reprojected"
+
+                def __init__(self, tag):
+                    self.tag = tag
+
+                def to_crs(self, crs, **kw):
+                    log.append(("to_crs", crs, kw))
+                    return Poly("reprojected")
+
+                def disjoint(self, ext):
+                    return (ext[1][0] + ext[1][1]) % 2 == 1  # keeps tiles with an even index sum
+
+            out = list(g.tiles_from_geopolygon(Poly("query"), cache))
+        else:
+            out = list(g.tiles("the-bounds", cache))
+    finally:
+        G.idx_bounds, G.tile_geobox = saved
+    every = [(ix, iy) for iy in range(iy1, iy2) for ix in range(ix1, ix2)]
+    if polygon:
+        claim(log[0] == ("to_crs", "grid-crs", {"check_and_fix": True}), "the polygon is reprojected into the grid's CRS first")
+        claim(("idx_bounds", "bbox-of-reprojected") in log, "index bounds come from the bounding box of the reprojected polygon")
+        want = [i for i in every if (i[0] + i[1]) % 2 == 0]
+    else:
+        claim(log[0] == ("idx_bounds", "the-bounds"), "index bounds of the query box")
+        want = every
+    claim([i for i, _ in out] == want, "every tile index of the bounds (x fastest, then y), each once" + (", filtered by 'not disjoint from the polygon'" if polygon else ""))
+    claim(all(gb.idx == i for i, gb in out), "each index comes with ITS tile's GeoBox")
+    made = [e[1] for e in log if e[0] == "tile_geobox"]
+    if use_cache:
+        claim((ix1, iy1) not in made and (not every or out[0][1] is pre_cached or (polygon and (ix1 + iy1) % 2 == 1)), "a cached GeoBox is re-used, not rebuilt")
+        claim(all(cache[i].idx == i for i in every), "every visited tile ends up in the cache under its own index")
+    else:
+        claim(made == every, "without a cache each tile's GeoBox is built once")
+
+
+lemma(
+    "gridspec.tiles_flow",
+    ["C14"],
+    inputs=dict(ix1=OneOf(-2, 0, 3), iy1=OneOf(-1, 0), nx=OneOf(0, 1, 3), ny=OneOf(0, 2), use_cache=Bool(), polygon=Bool()),
+    body=_lemma_gs_tiles_flow,
+    unstub=[f"{GS}:GridSpec.tiles", f"{GS}:GridSpec.tiles_from_geopolygon"],
+    note="data flow of the real tiles() / tiles_from_geopolygon() with idx_bounds and tile_geobox recorded (both proved separately): enumeration order, cache use, polygon filter",
+)
